@@ -131,3 +131,8 @@ def run(chk):
             chk.ob("R02.5", "%s: only documented exceptions escape" % lab, True, loc=lab)
         chk.ob("R02.4", "%s: returns only True (%s)" % (lab, res["vals"]), res["vals"] == ["Const(True)"], loc=lab, key="C02|R02.4|%s" % lab,
                detail="%s may return %s" % (lab, res["vals"]))
+    # shared with C06: the double-scalar product verifies relies on recognises identity operands
+    from sa.modp import ModP
+    from .c06 import identity_operand_rule
+    chk.rule("R06.8", "(shared with C06) identity operands (Z == 0) are recognised by the internal addition and doubling used by u1*G + u2*Q")
+    identity_operand_rule(chk, ModP(W.p, "PointJacobi"), "C02")
